@@ -6,5 +6,3 @@ pub mod c05;
 pub mod c06;
 #[cfg(kani)]
 pub mod sops;
-#[cfg(kani)]
-pub mod bench;
